@@ -68,7 +68,7 @@ def raised(c, key):
 
 
 # ---------------------------------------------------------------- running
-def run_algo(A, algo, pinp, policy="ALL", naming="unique", unordered_sorted=True):
+def run_algo(A, algo, pinp, policy="ALL", naming="unique", unordered_sorted=True, reuse=None):
     """Run one algorithm on a presented input; returns (min or INF, [solutions])
     with solutions as (m tuple, lab tuple of tuples) or a Raised."""
     fam, key = ALGOS[algo]
@@ -76,7 +76,9 @@ def run_algo(A, algo, pinp, policy="ALL", naming="unique", unordered_sorted=True
     if fam == "dtl":
         from superrec2.compute.reconciliation import reconcile_thl, reconcile_lca
         from superrec2.compute.exhaustive import reconcile_exhaustive
-        built = proj.build_input(A, pinp, naming=naming)
+        built = reuse["built"] if reuse and "built" in reuse else proj.build_input(A, pinp, naming=naming)
+        if reuse is not None:
+            reuse["built"] = built
         if algo == "lca":
             res = mc.safe(lambda: [reconcile_lca(built.input)])
         elif algo == "thl":
@@ -88,8 +90,13 @@ def run_algo(A, algo, pinp, policy="ALL", naming="unique", unordered_sorted=True
         sols = [(proj.mapping_of(built, out), tuple(() for _ in pinp["ot"])) for out in res]
         costs = mc.safe(lambda: [proj.cost_from_impl(A, out.cost()) for out in res])
     else:
-        built = proj.build_input(A, pinp, syn=pinp["syn"], unordered=(fam == "un"),
-                                 root_syn=pinp["root"] if pinp["root"] else None, naming=naming)
+        if reuse and "built" in reuse:
+            built = reuse["built"]
+        else:
+            built = proj.build_input(A, pinp, syn=pinp["syn"], unordered=(fam == "un"),
+                                     root_syn=pinp["root"] if pinp["root"] else None, naming=naming)
+        if reuse is not None:
+            reuse["built"] = built
         res = mc.safe(lambda: sc._quiet(lambda: list(sc.solver(A, fam, key)(built.input, pol))))
         if isinstance(res, mc.Raised):
             return res
